@@ -102,6 +102,13 @@ def run(ctx):
                         except cparse.ParseError:
                             continue
                         items.append({"id": cid, "text": text})
+        # calls without arguments (listed finding KF-D9b-parse)
+        for j, text in enumerate(("{ foo(); r = 1; }", "{ r = bar() + 1; }")):
+            try:
+                exp["call0-%d" % j] = larkproj.canon(cparse.parse_body(text))
+                items.append({"id": "call0-%d" % j, "text": text})
+            except cparse.ParseError:
+                pass
         # classification of operand-like identifiers (documented token classes, independent implementation)
         for i, name in enumerate(IDENTS):
             items.append({"id": "id-%s" % name, "text": "{ r = %s; }" % name})
